@@ -290,6 +290,15 @@ func ruleSkipDiscipline(c *Ctx, rule string, exceptions map[string]string) {
 		"getProcessExpressionTokens": "its job is to filter ignorable tokens (C15.R2)",
 		"parse_expr_pratt":           "works on the filtered token slice (C15.R2)",
 	}
+	// helpers that are reachable only through parse_expr_pratt work on the filtered slice as well
+	if pratt := c.Fn("ast", "parse_expr_pratt"); pratt != nil {
+		roots := []*ssa.Function{c.Fn("ast", "ParseReader")}
+		for f := range c.Reachable(pratt) {
+			if f != pratt && c.isRepoFn(f) && f.Pkg == pratt.Pkg && roots[0] != nil && c.onlyThrough(roots, pratt, f) {
+				exemptFns[f.Name()] = "helper reachable only through parse_expr_pratt: works on the filtered token slice (C15.R2)"
+			}
+		}
+	}
 	for _, fn := range c.SrcFuncs("ast") {
 		if filepath.Base(c.Fset.Position(fn.Pos()).Filename) != "parser.go" {
 			continue
